@@ -74,6 +74,12 @@ def run(chk, repo):
     chk.doc("R08.3", "one slot per visible variable (shared with C08)")
     c08.layout(chk, repo)
     c08.dedup(chk, repo)
+    # an expression assigned to a hash-map variable travels through a stack
+    # slot: the slot is the value's for as long as its address is in use
+    from . import ebpfshared as sh
+    chk.doc("R01.12", "the stack slot of a computed value outlives the use "
+                      "of its address (shared with C04/C09)")
+    sh.slot_escape_rule(chk, repo, "R01.12")
 
 
 # ------------------------------------------------------------------ R01.1
@@ -598,7 +604,45 @@ def r4_formats(chk, repo, d):
 
 
 # ------------------------------------------------------------------ R01.5
+def load_width(chk, repo, rule="R01.5"):
+    """the width a value is asked for reaches the load unchanged: a
+    calculate() that passes its own `long` on to load() passes the
+    parameter itself (sign extension to 64 bits happens in load(), for the
+    width it is told)"""
+    n = 0
+    for fn in repo.all_functions([repo.module("ebpfcat.ebpf")]):
+        if "long" not in param_names(fn):
+            continue
+        calls = [c for c in walk_no_nested(fn) if isinstance(c, ast.Call)
+                 and isinstance(c.func, ast.Attribute) and c.func.attr
+                 == "load" and len(c.args) == 5]
+        if not calls:
+            continue
+        cfg = CFG(fn)
+        rd = ReachingDefs(cfg)
+        for c in calls:
+            n += 1
+            a = c.args[4]
+            ok = isinstance(a, ast.Name) and a.id == "long"
+            why = f"`{unparse(a)}` is passed as the width"
+            if ok:
+                nodes = cfg.nodes_containing(c)
+                need(nodes, f"{func_qual(repo, c)}: load() call not in CFG")
+                ds = rd.reaching(nodes[0], "long")
+                redefs = [d_ for d_ in ds if d_.node is not None]
+                ok = not redefs
+                why = (f"`long` is re-bound by "
+                       f"`{unparse(redefs[0].node.stmt)[:50]}` before the "
+                       f"load: a value asked for in 64 bits is loaded (and "
+                       f"sign-extended) for a narrower width" if redefs
+                       else "the parameter itself")
+            chk.ob(rule, func_qual(repo, c), "load() is told the width the "
+                   "caller asked for", ok, c, why)
+    chk.floor(rule, "load() calls in calculate()", n, 2)
+
+
 def r5_signext(chk, repo, d):
+    load_width(chk, repo)
     chk.doc("R01.5", "sign extension after a load: guard, shift amount, "
                      "register view")
     ev = d.ev
@@ -883,7 +927,37 @@ def r6_views(chk, repo, d):
 
 
 # ------------------------------------------------------------------ R01.7
+def not_memoised(chk, repo, rule="R01.7"):
+    """a Constant is scaled in place (`value *= FIXED_BASE` through
+    __imul__): what is derived from its value - small_constant above all,
+    which selects the immediate form - is computed when asked, never
+    remembered from before the scaling"""
+    cc = repo.cls(E + "Constant")
+    mut = [n for n in cc.methods if n.startswith("__i") and n.endswith("__")
+           and n not in ("__init__", "__index__", "__int__", "__iter__",
+                         "__invert__")]
+    bad = []
+    n = 0
+    for name, f in cc.methods.items():
+        if not isinstance(f, FUNC):
+            continue
+        n += 1
+        for dec in f.decorator_list:
+            nm = (dotted(dec.func if isinstance(dec, ast.Call) else dec)
+                  or "").split(".")[-1]
+            if nm in ("cached_property", "cache", "lru_cache"):
+                bad.append((f, f"Constant.{name} is @{nm}"))
+    chk.ob(rule, E + "Constant", "nothing derived from a constant's value "
+           "is memoised", not bad or not mut, bad[0][0] if bad else cc.node,
+           (bad[0][1] + f": the constant is scaled in place "
+            f"({', '.join(mut)}) after the first look, and the remembered "
+            f"answer then selects a 32-bit immediate for a value that "
+            f"needs 64") if bad and mut else f"{n} methods, plain "
+           f"properties")
+
+
 def r7_constant(chk, repo, d):
+    not_memoised(chk, repo)
     chk.doc("R01.7", "constant encoding")
     ev = d.ev
     cc = repo.cls(E + "Constant")
